@@ -29,12 +29,13 @@ decided.  Decided are structural necessary conditions of it in src/dround.c:
  RF2-round    dround_ddur decoded (rules/rounddecode.py): for year-month-day dates of the 21 class years, every day-of-month, month
               and weekday target, both directions, with and without --next, the result is the nearest date on the requested side
               with that field value (a day the month lacks being its last day), finer fields kept; rounding the result again
-              returns it; tround_tdur and tround_tdur_cocl decoded likewise (gotos followed) on a grid of times that puts every
+              returns it; week dates x ISO week targets 1..53 (helper slot included) and business-day dates x business-day
+              targets 1..23 likewise; tround_tdur and tround_tdur_cocl decoded likewise (gotos followed) on a grid of times that puts every
               field on, next to and away from every boundary, for every hour / minute / second value target and every co-class
               divisor of the day, with the day carry
  RF-carry     dt_round adds the day carry of the time rounding to the date, resets it, and only then rounds the date
 """
-from core import (AnalysisBroken, strip, kids, const_of, call_args, expr_text, walk, CASTS, switch_cases)
+from core import (AnalysisBroken, strip, kids, const_of, call_args, expr_text, walk, CASTS, switch_cases, ceval, NotConst)
 from c04 import _lin, _key
 
 UNIT = "dround-dround.o"
@@ -42,6 +43,7 @@ UNIT = "dround-dround.o"
 ABOVE = {"hms.s": "hms.m", "hms.m": "hms.h", "hms.h": "carry", "ymd.d": "ymd.m", "bizda.bd": "bizda.m", "ymd.m": "ymd.y", "ywd.c": "ywd.y",
          "wday": "week"}
 SIZE = {"hms.h": 24, "hms.m": 60, "ymd.m": 12, "bizda.m": 12}
+STEPPERS = {"dt_dadd_y": ".y", "dt_dadd_m": ".m"}
 
 
 def _u(e):
@@ -226,6 +228,18 @@ def _signs(fn, branch):
         elif y.get("k") == "BinaryOperator" and y.get("op") == "=" and _field(y["c"][0]) is not None and _field(y["c"][0]).endswith("carry") \
                 and const_of(y["c"][1]) in (1, -1):
             out.append((const_of(y["c"][1]), y, "carry"))
+        elif y.get("k") == "BinaryOperator" and y.get("op") == "=":
+            # a step made through the library's adder of that field: `d = dt_dadd_y(d, 1)` (which keeps helper slots up to date)
+            r = _u(y["c"][1])
+            if r is not None and r.get("k") == "CallExpr" and r.get("callee") in STEPPERS and len(call_args(r)) == 2:
+                v = const_of(call_args(r)[1])
+                if v is None:
+                    try:
+                        v = ceval(call_args(r)[1], {}, fn.tu.types)
+                    except NotConst:
+                        v = None
+                if v:
+                    out.append((1 if v > 0 else -1, y, "*" + STEPPERS[r["callee"]]))
     return sorted(out, key=lambda t: t[1]["i"])
 
 
@@ -322,7 +336,8 @@ def check_fourway(P, R, tu):
                 if above is None:
                     raise AnalysisBroken("%s: field %s has no entry in the table of next coarser fields" % (rule, s.field))
                 first = sg[0][2]
-                okf = (first == above) or (above == "carry" and first == "carry") or (above == "week" and abs(const_of(sg[0][1]["c"][1]) or 0) == 7)
+                okf = (first == above) or (above == "carry" and first == "carry") or (first.startswith("*") and above.endswith(first[1:])) or \
+                    (above == "week" and not first.startswith("*") and abs(const_of(sg[0][1]["c"][1]) or 0) == 7)
                 if okf:
                     R.ob(rule, "%s: the %s arm steps %s, the field above" % (site, what, above), True)
                 else:
